@@ -59,7 +59,7 @@ from vlib import cfg
 
 MANIFEST = dict(
     technique='RFC-derived frame decoder written in TLA+ (Wire.tla) checked against hand-assembled example packets (TLC, ASSUME level); P-spec TraceWire validates byte-exact captures of every frame real stacks emit (trace validation: TLC decodes, checksums and judges each frame against the abstract host state rebuilt from logged API/config events)',
-    text='harness/wired drives real stacks: single hosts (UDP writes of lengths 0..MTU and beyond from bound/connected/unbound sockets, v4/v6, several NICs/routes incl. gateway routes and two addresses per NIC; echo replies; ARP request/reply; NDP solicit/advert; ping sockets; RST replies to strays; active opens answered by a raw peer with every MSS/WS/TS/SACK-permitted combination; listeners receiving SYNs with every combination; out-of-order data provoking 1-4 SACK blocks), PAIRS of real stacks joined by tapped wires (MTU 68..1500, IPv4/IPv6, data both ways, held-back frames forcing SACK, SYN options stripped in flight to get connections without timestamps/SACK, FIN both ways, gateway routes, real ARP/NDP resolution), next-hop scenarios (nothing pre-resolved, default route via a gateway, a responder on the wire answering ARP/NDP for the gateway and - proxy-ARP style - for every other address with a different MAC; UDP/TCP/ping to off-link destinations; the gateway then changes its MAC) and fd-based Ethernet endpoints over socketpair(2). Every emitted frame is recorded byte for byte; TLC decodes it with the TLA+ decoder and requires WellFormed (lengths, IPv4 header checksum, ICMP/UDP/TCP checksums with pseudo-header, strict TCP option walk), IpIdFresh, SrcByRoute, PortsRight and DstMac (link destination = the MAC most recently learnt for the next hop of the first matching route entry; ARP requests / neighbour solicitations only for next hops).',
+    text='harness/wired drives real stacks: single hosts (UDP writes of lengths 0..MTU and beyond from bound/connected/unbound sockets, v4/v6, several NICs/routes incl. gateway routes and two addresses per NIC; dual-stack IPv6 sockets to v4-mapped peers (UDP sendto/connected at the 16-bit limits of both families, TCP active and passive); dense payloads crafted so that the Internet checksum carries twice; echo replies; ARP request/reply; NDP solicit/advert; ping sockets; RST replies to strays; active opens answered by a raw peer with every MSS/WS/TS/SACK-permitted combination; listeners receiving SYNs with every combination; out-of-order data provoking 1-4 SACK blocks), PAIRS of real stacks joined by tapped wires (MTU 68..1500, IPv4/IPv6, data both ways, held-back frames forcing SACK, SYN options stripped in flight to get connections without timestamps/SACK, FIN both ways, gateway routes, real ARP/NDP resolution), next-hop scenarios (nothing pre-resolved, default route via a gateway, a responder on the wire answering ARP/NDP for the gateway and - proxy-ARP style - for every other address with a different MAC; UDP/TCP/ping to off-link destinations; the gateway then changes its MAC) and fd-based Ethernet endpoints over socketpair(2). Every emitted frame is recorded byte for byte; TLC decodes it with the TLA+ decoder and requires WellFormed (lengths, IPv4 header checksum, ICMP/UDP/TCP checksums with pseudo-header, strict TCP option walk), IpIdFresh, SrcByRoute, PortsRight and DstMac (link destination = the MAC most recently learnt for the next hop of the first matching route entry; ARP requests / neighbour solicitations only for next hops).',
     design='5 C06',
     note='Deviations from DESIGN C06: no separate Stack.tla (the abstract host state - nics, addrs, routes, neigh, socks - is rebuilt inside TraceWire from the logged events); WellFormed takes the EtherType (0 = Ethernet frame) instead of a link kind; ARP/NDP get their own instances of the addressing clauses (sender fields = NIC MAC / an address of the NIC, replies mirror the request, solicitation goes to the solicited-node address); frames of other checks arrive through validate_capture() instead of being aggregated here. Frames of checksum-offload links are exempt from transport-checksum clauses (as the code intends). SrcByRoute accepts any address of the NIC chosen by the first matching route entry (or the mirrored addresses of a packet being answered); the property does not say which of several addresses. NDP solicitations to a solicited-node multicast address may use the broadcast MAC (what the stack does) or the RFC 2464 multicast MAC. Forwarded packets are not driven. Frames are judged one by one: a frame that should have been emitted but was not is outside C06.')
 
@@ -645,6 +645,49 @@ def fam_dense(rng, thorough):
     return dict(name='dense', hosts=[h], ops=ops)
 
 
+def fam_mapped(rng, thorough):
+    """Cross-family paths: dual-stack IPv6 sockets talking to v4-MAPPED peers (::ffff:a.b.c.d) emit IPv4 packets.
+    UDP sendto and connected (ordinary sizes and the 16-bit limits of BOTH families on a 64 KiB link: what
+    exceeds the IPv4 limit must be refused, never emitted with wrapped length fields), TCP active open to a
+    mapped peer and a dual-stack listener accepting an IPv4 connection."""
+    h = single_host(rng, mtu=65535, resolve=False)
+    m9 = '::ffff:10.0.0.9'
+
+    def combo(i):
+        c = syn_combo(rng, i)
+        if 'mss' in c:
+            c['mss'] = rng.choice([536, 1460])
+        return c
+    ops = [dict(op='sock', s=1, proto='udp', v=6), dict(op='bind', s=1, addr='', port=5006)]
+    for n in [0, 1, 2, rng.choice([33, 512, 1472]), 65507 if not thorough else rng.choice([65506, 65507]), 65508, 65527, 65528, 65535]:
+        ops.append(dict(op='write', s=1, n=n, seed=n, to=dict(addr=m9, port=7)))
+    ops.append(dict(op='write', s=1, n=rng.choice([3, 100]), seed=1, to=dict(addr='fd00::9', port=7)))          # the same socket, native v6
+    ops += [dict(op='sock', s=2, proto='udp', v=6), dict(op='connect', s=2, addr='::ffff:172.16.5.5', port=9)]
+    for n in [1, rng.choice([64, 999]), 65508, rng.choice([65515, 65527]), 65528]:
+        ops.append(dict(op='write', s=2, n=n, seed=n))
+    ops += [dict(op='sock', s=3, proto='udp', v=6), dict(op='bind', s=3, addr='::ffff:10.0.0.2', port=5007)]          # bound to a mapped local address
+    ops.append(dict(op='write', s=3, n=rng.choice([5, 6]), seed=3, to=dict(addr=m9, port=7)))
+    # TCP: v6 socket -> mapped peer (the raw peer speaks IPv4)
+    ops += [dict(op='sock', s=4, proto='tcp', v=6),
+            dict(op='rpeer', p=1, nic=1, src='10.0.0.9', sport=8081, dst='10.0.0.1', dport=0, isn=rng.randrange(1 << 31), autoack=True),
+            dict(op='connect', s=4, addr=m9, port=8081), dict(op='rsynack', p=1, opts=combo(rng.choice([1, 9, 15]))), dict(op='connect_wait', s=4)]
+    total = 0
+    for n in [1, 2, rng.choice([100, 535, 536])]:
+        total += n
+        ops += [dict(op='write', s=4, n=n, seed=n), dict(op='rwait', p=1, bytes=total)]
+    ops.append(dict(op='close', s=4))
+    # dual-stack listener, IPv4 client
+    ops += [dict(op='sock', s=5, proto='tcp', v=6), dict(op='bind', s=5, addr='', port=8086), dict(op='listen', s=5),
+            dict(op='rpeer', p=2, nic=1, src='10.0.0.9', sport=40404, dst='10.0.0.2', dport=8086, isn=rng.randrange(1 << 31), autoack=True),
+            dict(op='rsyn', p=2, opts=combo(rng.choice([5, 13, 15]))), dict(op='rack', p=2), dict(op='accept', s=5, **{'as': 6})]
+    total = 0
+    for n in [1, 2, rng.choice([99, 300])]:
+        total += n
+        ops += [dict(op='write', s=6, n=n, seed=n), dict(op='rwait', p=2, bytes=total)]
+    ops += [dict(op='close', s=6), dict(op='close', s=5), dict(op='settle', ms=10)]
+    return dict(name='mapped', hosts=[h], ops=ops)
+
+
 def fam_udp_big(rng, thorough):
     """datagrams at the 16-bit length limits on a 64 KiB link (F3 territory): the length fields must not wrap"""
     h = single_host(rng, mtu=65535, resolve=False)
@@ -674,7 +717,7 @@ def gen_scenarios(ctx, budget_frames):
             (fam_offload(rng, th), 9), (fam_eth_single(rng, th), 17), (fam_resolve(rng, th, 'eth'), 10),
             (fam_pair(rng, th, kind='ip', v=4, mtu=[68, 576, 1500][k % 3]), 60), (fam_pair(rng, th, kind='ip', v=6), 40),
             (fam_pair(rng, th, kind='eth', v=rng.choice([4, 6])), 45), (fam_pair(rng, th), 45),
-            (fam_gateway(rng, th, 'ip'), 40), (fam_gateway(rng, th, 'eth'), 36), (fam_dense(rng, th), 95),
+            (fam_gateway(rng, th, 'ip'), 40), (fam_gateway(rng, th, 'eth'), 36), (fam_dense(rng, th), 95), (fam_mapped(rng, th), 40),
         ]
         if th and k % 8 == 0:
             round_.append((fam_udp_big(rng, th), 3))
